@@ -544,7 +544,7 @@ fn evidence(
         "C16" => &["W-SHORT", "W-EINTR", "R-SHORT", "R-EINTR", "D-PREFILL", "D-EXACT", "S-FORM", "L-NONE", "L-BIG", "W-ERR", "S-ERR"],
         "C17" => &[
             "W-SHORT", "W-EINTR", "R-SHORT", "R-EINTR", "D-PREFILL", "S-FORM", "L-NONE", "L-BIG", "W-ERR", "M-TRUNC", "M-FLIP", "M-SUB", "M-ZERO",
-            "M-DUP", "M-TAIL", "M-FIELD", "M-PAD0", "R-ERR", "R-EOF", "A-BUDGET", "L-SMALL", "S-FLAG", "S-ALIEN", "S-ERR", "P-SKEW", "N-NEG", "T-TRUNC", "T-SUB",
+            "M-DUP", "M-TAIL", "M-FIELD", "M-GARBAGE", "M-PAD0", "R-ERR", "R-EOF", "A-BUDGET", "L-SMALL", "S-FLAG", "S-ALIEN", "S-ERR", "P-SKEW", "N-NEG", "T-TRUNC", "T-SUB",
             "T-INS", "T-MULTIBYTE", "T-UNDERSCORE", "T-CASE", "T-PREFIX", "T-RADIX", "T-DIGIT", "T-OVER", "G-DROP", "G-CORRUPT", "G-APPEND", "G-BASE",
         ],
         _ => &["E-STREAM", "E-FAIL", "E-DRY", "E-SEED", "E-WALK", "M-FLIP", "M-TRUNC", "R-EINTR"],
@@ -583,7 +583,7 @@ fn evidence(
             "runs_per_configuration": total.per_config,
             "operation_outcomes": total.outcome_letters.iter().map(|(k, v)| (k.to_string(), *v)).collect::<BTreeMap<String, u64>>(),
             "outcome_legend": "k ok on undamaged record; K ok on damaged input (judged by the reference denotation); e error on damaged input; E error on undamaged record; p panic; s step budget; - record lost",
-            "sweep": {"records": total.sweep_records, "records_with_every_bit_flipped": total.sweep_exhaustive, "exhaustive_single_fault_per_record": "every truncation offset, every read-cut offset (ERR and EOF), every write-error offset; every single-bit flip for encodings <= 128 bytes"},
+            "sweep": {"records": total.sweep_records, "records_with_every_bit_flipped": total.sweep_exhaustive, "exhaustive_single_fault_per_record": "every truncation offset, every read-cut offset (ERR and EOF), every write-error offset; every single-bit flip for encodings <= 128 bytes; every value of each of the first two bytes"},
             "components": {
                 "real": ["ruint (rebuilt from /repo working tree): encoders, decoders, bytes.rs, string.rs, base_convert.rs, generators", "borsh", "parity-scale-codec", "alloy-rlp", "fastrlp 0.3/0.4", "rlp 0.5", "der", "ethereum_ssz", "serde_json", "bincode", "bytes", "postgres-types", "bytemuck", "num-bigint", "primitive-types", "ark-ff 0.3/0.4", "arbitrary", "quickcheck", "proptest", "rand 0.8/0.9 distributions"],
                 "stub": ["WriteSeam/ReadSeam (io::Write/io::Read, chunking, EINTR, hard error, EOF)", "SimInput (SCALE Input: remaining_len modes, alloc budget)", "SimDerWriter (der::Writer)", "SimSerializer/SimDeserializer (serde data model)", "SimRng08/SimRng09 (RngCore)", "medium (byte log + fault applicator)", "digit iterator"],
